@@ -9,7 +9,7 @@ import sympy as sp
 from ptstat import AnalysisError, algebra
 from ptstat.symval import SymObj, Phi, SymRaise, merge
 from ptstat.world import mass_sym
-from .common import world, eq, dict_eq, fsite, raises, folder, _s
+from .common import world, eq, dict_eq, fsite, raises, folder, _s, public_entry_points
 from .C12 import action, action_site, _action_qual, action_tokens
 
 EXPLANATION = (
@@ -256,6 +256,7 @@ def _run(ctx):
         ctx.check(rr == "ValueError", "R2", f"mix_by_{mode} with a missing quantity raises ValueError", f"got {rr}", site)
         rr = raises(lambda: I.call(fn, [f1, q[0]], {"bogus": 1}))
         ctx.check(rr == "TypeError", "R2", f"mix_by_{mode} with an unknown keyword raises TypeError", f"got {rr}", site)
+    public_entry_points(ctx, "RW", [("mix_by_weight", "formulas.mix_by_weight"), ("mix_by_volume", "formulas.mix_by_volume"), ("formula", "formulas.formula")])
     ctx.floor("R2", 22)
 
     # ---- R3 parse actions ---------------------------------------------------------
